@@ -125,8 +125,13 @@ int main(int argc, char** argv) {
                 if (getenv("DIVDBG")) fprintf(stderr, "daughter %d smin %.3e smax %.3e tol %.3e\n", i, smin, smax, tol);
                 o.clear();
             }
-            // opposite sides: the centroids of the two daughters are on different sides
-            const double s1 = (d[0]->compute_centroid() - centroid).dot(axis), s2 = (d[1]->compute_centroid() - centroid).dot(axis);
+            // opposite sides: the mean signed distance of the nodes of the two daughters has opposite signs.  (Computed from the node
+            // positions: cell::compute_centroid divides by the cached cell area, which divide_cell does not refresh after the
+            // remeshing of the daughters -- the solver recomputes it before it is used.)
+            double sm[2] = {0, 0};
+            for (int i = 0; i < 2; i++) { size_t cnt = 0; for (auto& n : cell_tester::nodes(*d[i])) if (n.is_used()) { sm[i] += (n.pos() - centroid).dot(axis); cnt++; } sm[i] /= (double)std::max<size_t>(1, cnt); }
+            const double s1 = sm[0], s2 = sm[1];
+            if (getenv("DIVDBG")) fprintf(stderr, "mean sides s1 %.3e s2 %.3e\n", s1, s2);
             if (!(s1 * s2 < 0)) side_ok = false;
             char buf[256];
             snprintf(buf, sizeof buf, ",\"vol_rel_err\":\"%.3e\",\"vol_sum_ok\":%s,\"side_ok\":%s,\"outward\":%s,\"tvol_half\":%s,\"type_ok\":%s,\"finite\":%s",
